@@ -36,3 +36,11 @@ def fmt(template, args):
     """template % args, also for symbolic arguments (harness code is not lifted)."""
     from symx import rt
     return rt.mod(template, args)
+
+
+def startswith(a, prefix):
+    """a.startswith(prefix) where either may be symbolic (harness code is not lifted)."""
+    from symx.values import SymSeq, to_symseq
+    if isinstance(a, SymSeq) or isinstance(prefix, SymSeq):
+        return to_symseq(a).startswith(prefix)
+    return a.startswith(prefix)
